@@ -14,7 +14,7 @@ func specDictSize(c byte) int64 {
 func VH_C18_encode() {
 	n := vNondetI64("n")
 	vAssume(1 <= n && n <= 1<<32-1)
-	vUnwind(8)
+	vUnwind(64)
 	c := EncodeDictCap(n)
 	vAssert(c <= 40, "code in range")
 	d, err := DecodeDictCap(c)
@@ -29,7 +29,7 @@ func VH_C18_encode() {
 // (the function promises the maximum for too large values).
 func VH_C18_encode_clamp() {
 	n := vNondetI64("n")
-	vUnwind(8)
+	vUnwind(64)
 	c := EncodeDictCap(n)
 	vAssert(c <= 40, "code in range for every int64")
 	if n > 1<<32-1 {
